@@ -18,7 +18,7 @@ structure ClientCert where
   /-- the handshake verifies: the chain leads to the configured CA and every certificate is currently valid -/
   verified : Bool
   leafCN : String
-  /-- common names of the other certificates the client sends (intermediates) -/
+  /-- common names of the other certificates the client sends (intermediates, and certificates no chain needs) -/
   chainCNs : List String := []
 deriving Repr, Inhabited
 
@@ -26,6 +26,8 @@ def certOf : String → ClientCert
   | "good" => { verified := true, leafCN := "client" }
   | "wrongcn" => { verified := true, leafCN := "somebody-else" }
   | "intercn" => { verified := true, leafCN := "leaf-without-the-name", chainCNs := ["client"] }
+  | "straycn" => { verified := true, leafCN := "somebody-else", chainCNs := ["client"] }
+  | "straygood" => { verified := true, leafCN := "somebody-else", chainCNs := ["client"] }
   | "expired" => { verified := false, leafCN := "client" }
   | "foreign" => { verified := false, leafCN := "client" }
   | "selfsigned" => { verified := false, leafCN := "client" }
